@@ -46,9 +46,13 @@ def writerN (b : Nat) (p : C01Bytes) : Nat := ((chunks b p).map List.length).sum
 /-- `if b < len(p) { p = p[:b] }` : size of the slice handed to the reader below -/
 def readerAsk (b plen : Nat) : Nat := if b < plen then b else plen
 
-/-- `n, err = r.r.Read(p); if err != nil {return}; WaitN(n)`: tokens charged for a read below that
-    returned `got` bytes (`err = true`: nothing is charged, the bytes are still returned) -/
-def readerCharge (got : Nat) (err : Bool) : Nat := if err then 0 else got
+/-- `n, err = r.r.Read(p); if err != nil { if n > 0 { WaitN(n) }; return }; WaitN(n)`: tokens charged for a read below
+    that returned `got` bytes — the bytes that come with an error are charged as well (fix c863bec) -/
+def readerCharge (got : Nat) (_err : Bool) : Nat := got
+
+/-- reader.go before c863bec: `if err != nil { return }` came before `WaitN` (`err = true`: nothing is charged, the
+    bytes are still returned) — kept as a sensitivity witness only -/
+def readerChargeOld (got : Nat) (err : Bool) : Nat := if err then 0 else got
 
 /-! ## `Writer.Write` / `Reader.Read` against the limiter's admission check and a sink that can fail
 
@@ -149,7 +153,10 @@ def readAll (inf : Bool) (b plen per : Nat) : Nat → C01Bytes → List ROut
 
     pkg/util/limit/reader.go  Reader.Read:
         b := Burst(); if b < len(p) { p = p[:b] }
-        n, err = r.r.Read(p);  if err != nil { return }      -- named results: n AND err go to the caller, no WaitN
+        n, err = r.r.Read(p)
+        if err != nil {                                       -- named results: n AND err go to the caller;
+          if n > 0 { if werr := WaitN(ctx, n); werr != nil { err = werr } }   -- the bytes are charged first (c863bec)
+          return }
         err = r.limiter.WaitN(ctx, n); return                -- n is returned also when WaitN refuses
     pkg/util/net/conn.go      StatsConn.Read: n, err = Conn.Read(p); totalRead += int64(n); return
                               CloseNotifyConn / ContextConn (embedded net.Conn), WrapReadWriteCloserConn (embedded
@@ -227,9 +234,33 @@ def readW : List RW → Nat → List Seg → RRes × List Seg
     if x.1.err = .none then                          -- `err = r.limiter.WaitN(ctx, n); return`
       ({ got := x.1.got, err := if waitOk inf b x.1.got.length then .none else .wait,
          reqs := x.1.reqs ++ [x.1.got.length] }, x.2)
-    else x                                           -- `if err != nil { return }` : n and err as they came
+    else if x.1.got.length = 0 then x                -- `if err != nil { if n > 0 {…}; return }` : n and err as they came
+    else                                             -- `if werr := WaitN(ctx, n); werr != nil { err = werr }`
+      ({ got := x.1.got, err := if waitOk inf b x.1.got.length then x.1.err else .wait,
+         reqs := x.1.reqs ++ [x.1.got.length] }, x.2)
   | .pass :: ws, k, src => readW ws k src
   | .stats :: ws, k, src => readW ws k src           -- `totalRead += int64(n)`: `statsCount`
+
+/-- `readW` with reader.go as it was BEFORE c863bec (`if err != nil { return }` ahead of `WaitN`): the bytes that come
+    with an error are handed on uncharged.  Sensitivity witness only (`C01.reader_charged_old_witness`) -/
+def readWOld : List RW → Nat → List Seg → RRes × List Seg
+  | [], k, src =>
+    let x := srcRead k src
+    ({ got := x.1.1, err := PErr.ofS x.1.2, reqs := [] }, x.2)
+  | .limit inf b :: ws, k, src =>
+    let x := readWOld ws (readerAsk b k) src
+    if x.1.err = .none then
+      ({ got := x.1.got, err := if waitOk inf b x.1.got.length then .none else .wait,
+         reqs := x.1.reqs ++ [x.1.got.length] }, x.2)
+    else x
+  | .pass :: ws, k, src => readWOld ws k src
+  | .stats :: ws, k, src => readWOld ws k src
+
+def drainWOld (ws : List RW) (plen : Nat) : Nat → List Seg → List RRes
+  | 0, _ => []
+  | fuel + 1, src =>
+    let x := readWOld ws plen src
+    if x.1.err = .none then x.1 :: drainWOld ws plen fuel x.2 else [x.1]
 
 /-- an `io.Copy`-like caller with a `plen`-byte buffer: takes `p[:n]` of EVERY read, stops at the first error -/
 def drainW (ws : List RW) (plen : Nat) : Nat → List Seg → List RRes
